@@ -1,16 +1,16 @@
 SPECIFICATION LiveSpec
 CONSTANTS
-  Chunks = {1, 2}
+  Chunks = {1}
   Peers = {1, 2}
-  Limits = {1}
-  ALimits = {3}
+  Limits = {0, 1, 2}
+  ALimits = {1, 3}
   BInit = 1
   BMax = 4
   Succ = 2
-  Life <- Life53
-  Flaky = {1}
-  AnnBy <- AnnSkew
-  BadFrom = {}
+  Life <- Life9
+  Flaky = {1, 2}
+  AnnBy <- AnnAll
+  BadFrom = {1}
   MaxHist = 8
   ReannounceLeak = FALSE
 PROPERTIES C24_Live_Dropped
